@@ -12,6 +12,8 @@ Deductive / static part (complete over the package source, re-read every run):
                   mutation-site coverage is measured against the syntactic list of sites
 Determinism + frame => history freedom; no shared mutable state is written => the result does
 not depend on the thread schedule (assumption: CPython reads of unmodified objects are safe).
+Idempotence: the _encode glue obligations (C15._encode.*) make the symbol a function of (segments, version, level used, mask used) only;
+the re-encoding call reaches the stages with the same values (argument in DESIGN.md 10.6); exercised bounded as well.
 Bounded (labelled): snapshots of all module tables / arguments / earlier results around native
 calls (incl. the serialisers), shuffled call histories, 16 concurrent threads, and re-encoding
 with the automatically chosen (version, level, mask) and boosting disabled.
@@ -42,8 +44,13 @@ def tasks(tier, seed):
           Task('determinism_scan', MOD, 'task_determinism_scan', (), backend='ground', fuc=['segno/*.py (all functions)']),
           Task('frame_encoder', MOD, 'task_frame_encoder', (), fuc=['segno.encoder.encode', 'segno.encoder.encode_sequence', 'segno.utils.matrix_iter',
                                                                      'segno.utils.matrix_iter_verbose', 'segno.utils.matrix_to_lines'], weight=20, backend='ground')]
-    for k in range(8):
+    for k in range(8 if tier == 'quick' else 64):
         ts.append(Task('bounded_purity[%d]' % k, MOD, 'task_bounded_purity', (seed, k), backend='bounded', fuc=['segno.make', 'segno.make_sequence', 'segno.QRCode.save'], weight=30))
+    # idempotence lemma: the glue contract of _encode pins every stage argument to (segments, version, level actually used, mask actually used);
+    # encoding again with the reported version / level / mask and boosting disabled therefore calls every stage with identical arguments
+    # (the mask stage with the reported mask as request, whose contract - C06 - returns the same candidate), and the stages are deterministic (scan)
+    from . import glue
+    ts += glue.glue_tasks('C15')
     return ts
 
 
